@@ -17,6 +17,10 @@ func owns(prop, oracle string) bool {
 		return true
 	}
 	switch prop {
+	case "C09":
+		// "OnWatchedError ... withheld only while the delay is in force and the
+		// suppress option is set": rejections after enabling must be delivered
+		return oracle == "C04.on-watched-error"
 	case "C17", "C18":
 		// "the view converges to the config decoded from the final content" is
 		// the fresh-stack / no-lost-update oracle with the file as one source
